@@ -18,6 +18,7 @@ open Parser Op
 
 /-- the hypotheses are satisfiable: the eager matcher of the specification is a `LazyOf` matcher -/
 theorem eager_lazyOf : Op.LazyOf Op.eagerMatcher := Op.eager_lazyOf
+theorem eager_weakLazyOf : Op.WeakLazyOf Op.eagerMatcher := Op.eager_lazyOf.weak
 
 /-- S2 for files: every strict prefix of a well-formed file, cut at *any bit*, is `insufficient`
 for the specification decoder -/
@@ -27,15 +28,15 @@ theorem spec_truncated (gb : Nat → Nat) (d : DType) (f : AFile) (h : f.WF gb d
   decodeFile_truncated gb d f h s hs hne
 
 /-- **truncation is reported as insufficient data**: `simple_decompress` on any strict prefix of a
-well-formed file that is a whole number of bytes, for every `LazyOf` Huffman lookup -/
-theorem truncation_insufficient (L : Op.Matcher) (hL : Op.LazyOf L) (gb : Nat → Nat) (d : DType)
+well-formed file that is a whole number of bytes, for every `WeakLazyOf` Huffman lookup (no prefix-safety of the lookup is assumed) -/
+theorem truncation_insufficient (L : Op.Matcher) (hL : Op.WeakLazyOf L) (gb : Nat → Nat) (d : DType)
     (f : AFile) (h : f.WF gb d) (s : Bits) (hs : s <+: encodeFile gb d f) (hne : s ≠ encodeFile gb d f)
     (hbytes : s.length % 8 = 0) :
     (Op.simpleDecompress L gb d (Op.write Op.St.init s)).1 = .err .insufficient :=
   Op.simple_insufficient L hL gb d s hbytes (decodeFile_truncated gb d f h s hs hne)
 
 /-- the byte-granular form: the first `k` bytes of a file of more than `k` bytes -/
-theorem truncation_insufficient_bytes (L : Op.Matcher) (hL : Op.LazyOf L) (gb : Nat → Nat) (d : DType)
+theorem truncation_insufficient_bytes (L : Op.Matcher) (hL : Op.WeakLazyOf L) (gb : Nat → Nat) (d : DType)
     (f : AFile) (h : f.WF gb d) (k : Nat) (hk : 8 * k < (encodeFile gb d f).length) :
     (Op.simpleDecompress L gb d (Op.write Op.St.init ((encodeFile gb d f).take (8 * k)))).1
       = .err .insufficient := by
@@ -49,7 +50,7 @@ theorem truncation_insufficient_bytes (L : Op.Matcher) (hL : Op.LazyOf L) (gb : 
 
 /-- … and the decompressor state is unchanged by the failed call (the caller can write more data
 and call again) -/
-theorem truncation_state_unchanged (L : Op.Matcher) (hL : Op.LazyOf L) (gb : Nat → Nat) (d : DType)
+theorem truncation_state_unchanged (L : Op.Matcher) (hL : Op.WeakLazyOf L) (gb : Nat → Nat) (d : DType)
     (f : AFile) (h : f.WF gb d) (s : Bits) (hs : s <+: encodeFile gb d f) (hne : s ≠ encodeFile gb d f)
     (hbytes : s.length % 8 = 0) :
     Op.simpleDecompress L gb d (Op.write Op.St.init s) = (.err .insufficient, Op.write Op.St.init s) := by
@@ -59,7 +60,7 @@ theorem truncation_state_unchanged (L : Op.Matcher) (hL : Op.LazyOf L) (gb : Nat
 
 /-- at bit granularity: `insufficient`, or `corrupt` for a cut inside a byte; never `ok`, never
 another kind; the state is unchanged -/
-theorem truncation_never_ok (L : Op.Matcher) (hL : Op.LazyOf L) (gb : Nat → Nat) (d : DType)
+theorem truncation_never_ok (L : Op.Matcher) (hL : Op.WeakLazyOf L) (gb : Nat → Nat) (d : DType)
     (f : AFile) (h : f.WF gb d) (s : Bits) (hs : s <+: encodeFile gb d f) (hne : s ≠ encodeFile gb d f) :
     Op.simpleDecompress L gb d (Op.write Op.St.init s) = (.err .insufficient, Op.write Op.St.init s) ∨
       (s.length % 8 ≠ 0 ∧
@@ -70,7 +71,7 @@ theorem truncation_never_ok (L : Op.Matcher) (hL : Op.LazyOf L) (gb : Nat → Na
 
 /-- more generally, for any input (not only prefixes of well-formed files): whenever the
 specification decoder needs more data, so does the operational one, on whole-byte inputs -/
-theorem insufficient_refines (L : Op.Matcher) (hL : Op.LazyOf L) (gb : Nat → Nat) (d : DType)
+theorem insufficient_refines (L : Op.Matcher) (hL : Op.WeakLazyOf L) (gb : Nat → Nat) (d : DType)
     (s : Bits) (hbytes : s.length % 8 = 0) (h : decodeFile gb d s = .insufficient) :
     Op.simpleDecompress L gb d (Op.write Op.St.init s) = (.err .insufficient, Op.write Op.St.init s) := by
   have h1 := Op.simple_insufficient L hL gb d s hbytes h
@@ -148,7 +149,7 @@ example : (encodeFile exGb exU32 exFile).length = 336 := by decide
 
 example : (Op.simpleDecompress Op.eagerMatcher exGb exU32 (Op.write Op.St.init (encodeFile exGb exU32 exFile))).1
     = .ok [7] := by
-  have := C03.reader_total_on_format Op.eagerMatcher eager_lazyOf exGb exU32 exFile exFile_WF
+  have := C03.reader_total_on_format Op.eagerMatcher eager_weakLazyOf exGb exU32 exFile exFile_WF
   rw [this]
   have hv : (fileVals exU32 exFile.toD).flatten = [7] := by decide
   rw [hv]
@@ -157,7 +158,7 @@ example : (Op.simpleDecompress Op.eagerMatcher exGb exU32 (Op.write Op.St.init (
 example (k : Nat) (hk : k < 42) :
     (Op.simpleDecompress Op.eagerMatcher exGb exU32
       (Op.write Op.St.init ((encodeFile exGb exU32 exFile).take (8 * k)))).1 = .err .insufficient := by
-  apply truncation_insufficient_bytes Op.eagerMatcher eager_lazyOf exGb exU32 exFile exFile_WF
+  apply truncation_insufficient_bytes Op.eagerMatcher eager_weakLazyOf exGb exU32 exFile exFile_WF
   have : (encodeFile exGb exU32 exFile).length = 336 := by decide
   omega
 
